@@ -1073,6 +1073,152 @@ def grid_depth(P, rep, rule="GRID.depth"):
     rep.floor(rule, n, 20, "node depth assignments")
 
 
+def grid_cartesian(P, rep, rule="GRID.cartesian"):
+    """the Cartesian mesh: node lattice and cell connectivity as closed forms of the loop indices"""
+    rep.rule(rule, "gwb-grid, grid_type cartesian (compressed numbering): node c of the lattice loop (i, j, k) has coordinates x_min + i*dx, "
+                   "y_min + j*dy, z_min + k*dz with dx = (x_max - x_min)/n_cell_x etc.; with N(i,j,k) the node counter of that loop nest, cell "
+                   "(i,j,k) lists the eight nodes N(i-1+a, j-1+b, k-1+c) in VTK hexahedron order (2D: the four nodes in VTK quad order) - "
+                   "every cell is exactly one lattice cell and all indices are in range")
+    F = main_of(P, "gwb-grid")
+    R = lambda x: norm.render(P, x, nocast=True).replace(" ", "")
+    blocks = [x for x in F.walk() if x.get("k") == "IfStmt" and R(x["c"][0]) in ('(grid_type=="cartesian")', '("cartesian"==grid_type)')]
+    if len(blocks) != 1:
+        rep.unknown(rule, "%d `grid_type == \"cartesian\"` blocks" % len(blocks))
+        return
+    blk = blocks[0]["c"][1]
+    nx, ny, nz = sp.symbols("n_cell_x n_cell_y n_cell_z", integer=True, positive=True)
+    xmin, ymin, zmin, xmax, ymax, zmax = sp.symbols("x_min y_min z_min x_max y_max z_max", real=True)
+    namesym = {"n_cell_x": nx, "n_cell_y": ny, "n_cell_z": nz, "x_min": xmin, "y_min": ymin, "z_min": zmin, "x_max": xmax, "y_max": ymax, "z_max": zmax}
+
+    def loop_nest(node):
+        """[(var key, start, cond op, bound sym)] from the outermost enclosing for-loop inside blk to the innermost"""
+        nest = []
+        for a in F.ancestors(node):
+            if a is blk:
+                break
+            if a.get("k") == "ForStmt":
+                init, cond = a["c"][0], sc(a["c"][1])
+                if not (init is not None and init.get("k") == "DeclStmt" and init["c"] and init["c"][0].get("c")):
+                    return None
+                iv = init["c"][0]
+                start = sc(iv["c"][0])
+                if start.get("k") != "IntegerLiteral" or cond is None or cond.get("k") != "BinaryOperator" or cond.get("op") not in ("<", "<="):
+                    return None
+                if not astq.is_ref_to(cond["c"][0], iv["r"]):
+                    return None
+                b = sc(cond["c"][1])
+                if b.get("k") != "DeclRefExpr" or b.get("n") not in namesym:
+                    return None
+                nest.append((iv["r"], int(start["v"]), cond["op"], namesym[b["n"]], iv.get("n")))
+        return nest[::-1]
+
+    def counter_formula(nest, loopsyms):
+        """value of a counter that starts at 0 and is incremented once per innermost iteration, as a polynomial in the loop variables"""
+        total = sp.Integer(0)
+        stride = sp.Integer(1)
+        for (key, start, op, bound, nm) in reversed(nest):
+            count = (bound - start + 1) if op == "<=" else (bound - start)
+            total += (loopsyms[key] - start) * stride
+            stride *= count
+        return sp.expand(total)
+    dim_branches = {}
+    for x in F.walk(blk):
+        if x.get("k") == "IfStmt" and R(x["c"][0]) in ("(dim==2)", "(2==dim)"):
+            dim_branches.setdefault("pos" if any(sc(astq.subscript(y["c"][0])[0]).get("n") == "grid_x" for y in F.walk(x) if y.get("k") == "BinaryOperator" and y.get("op") == "=" and astq.subscript(y["c"][0])) else "conn", x)
+    n_ok = 0
+    for dim in (2, 3):
+        # ---- node positions
+        pos = {}
+        for y in F.walk(blk):
+            if y.get("k") == "BinaryOperator" and y.get("op") == "=":
+                s_ = astq.subscript(y["c"][0])
+                if s_ and sc(s_[0]).get("n") in ("grid_x", "grid_y", "grid_z") and R(s_[1]) == "counter":
+                    nest = loop_nest(y)
+                    if nest is None:
+                        continue
+                    bounds = tuple(b for (_, _, _, b, _) in nest)
+                    ops = tuple(o for (_, _, o, _, _) in nest)
+                    if dim == 2 and len(nest) == 2 and set(bounds) == {nx, nz} and ops == ("<=", "<="):
+                        pos.setdefault(sc(s_[0])["n"], (y, nest))
+                    if dim == 3 and len(nest) == 3 and set(bounds) == {nx, ny, nz} and ops == ("<=", "<=", "<="):
+                        pos.setdefault(sc(s_[0])["n"], (y, nest))
+        need = ("grid_x", "grid_z") if dim == 2 else ("grid_x", "grid_y", "grid_z")
+        if not all(k in pos for k in need):
+            rep.unknown(rule, "dim %d: lattice position loop not recognised (found %s)" % (dim, sorted(pos)))
+            continue
+        nest = pos["grid_x"][1]
+        loopsyms = {key: sp.Symbol("L_" + str(b), integer=True, nonnegative=True) for (key, _, _, b, _) in nest}
+        by_bound = {b: loopsyms[key] for (key, _, _, b, _) in nest}
+        symp = norm.Sym(P, F, inline_locals=True, env=dict(loopsyms))
+        for nm_, sy_ in namesym.items():
+            try:
+                symp.env[var_by_name(F, nm_)] = sy_
+            except AnalysisBroken:
+                pass
+        want_pos = {"grid_x": xmin + by_bound[nx] * (xmax - xmin) / nx, "grid_z": zmin + by_bound[nz] * (zmax - zmin) / nz}
+        if dim == 3:
+            want_pos["grid_y"] = ymin + by_bound[ny] * (ymax - ymin) / ny
+        bad = []
+        for k in need:
+            got = symp(pos[k][0]["c"][1])
+            # dy carries a `dim == 2 ? 0 : ...` selector: evaluate for this dim
+            got = got.replace(lambda e: getattr(e.func, "__name__", "") == "ite", lambda e: e.args[1] if dim == 2 else e.args[2]) if dim == 3 else got
+            if sp.simplify(got - want_pos[k]) != 0:
+                bad.append("%s = %s" % (k, str(got)[:70]))
+        if bad:
+            rep.violation(rule, "dim %d: node coordinates are %s" % (dim, "; ".join(bad)), F.nloc(pos[need[0]][0]), F.qn, "", "expected min + index * (max - min)/n_cell in each direction",
+                          key="%s|pos|%d" % (rule, dim), witness="a %dD cartesian grid with different cell counts per direction" % dim)
+            continue
+        Nf = counter_formula(nest, loopsyms)       # node number as a polynomial in the lattice indices
+        # ---- connectivity
+        conn = {}
+        for y in F.walk(blk):
+            if y.get("k") == "BinaryOperator" and y.get("op") == "=":
+                s_ = astq.subscript(y["c"][0])
+                s2_ = astq.subscript(s_[0]) if s_ else None
+                if s2_ and sc(s2_[0]).get("n") == "grid_connectivity" and R(s2_[1]) == "counter" and sc(s_[1]).get("k") == "IntegerLiteral":
+                    cn = loop_nest(y)
+                    if cn is None:
+                        continue
+                    bounds = tuple(b for (_, _, _, b, _) in cn)
+                    if (dim == 2 and len(cn) == 2 and set(bounds) == {nx, nz}) or (dim == 3 and len(cn) == 3 and set(bounds) == {nx, ny, nz}):
+                        if all(o == "<=" and st == 1 for (_, st, o, _, _) in cn):
+                            conn[int(sc(s_[1])["v"])] = (y, cn)
+        nvert = 4 if dim == 2 else 8
+        if sorted(conn) != list(range(nvert)):
+            rep.unknown(rule, "dim %d: connectivity loop not recognised (entries %s)" % (dim, sorted(conn)))
+            continue
+        cn = conn[0][1]
+        csyms = {key: sp.Symbol("C_" + str(b), integer=True, positive=True) for (key, _, _, b, _) in cn}
+        cby = {b: csyms[key] for (key, _, _, b, _) in cn}
+        symc = norm.Sym(P, F, inline_locals=True, env=dict(csyms))
+        for nm_, sy_ in namesym.items():
+            try:
+                symc.env[var_by_name(F, nm_)] = sy_
+            except AnalysisBroken:
+                pass
+        if dim == 2:
+            order = [(0, 0), (1, 0), (1, 1), (0, 1)]         # VTK_QUAD in the (x, z) plane
+            def node(off):
+                return Nf.subs({by_bound[nx]: cby[nx] - 1 + off[0], by_bound[nz]: cby[nz] - 1 + off[1]}, simultaneous=True)
+        else:
+            order = [(0, 0, 0), (1, 0, 0), (1, 1, 0), (0, 1, 0), (0, 0, 1), (1, 0, 1), (1, 1, 1), (0, 1, 1)]      # VTK_HEXAHEDRON
+            def node(off):
+                return Nf.subs({by_bound[nx]: cby[nx] - 1 + off[0], by_bound[ny]: cby[ny] - 1 + off[1], by_bound[nz]: cby[nz] - 1 + off[2]}, simultaneous=True)
+        badc = []
+        for m in range(nvert):
+            got = sp.expand(symc(conn[m][0]["c"][1]))
+            if sp.expand(got - node(order[m])) != 0:
+                badc.append("vertex %d = %s, expected node%s = %s" % (m, got, order[m], sp.expand(node(order[m]))))
+        if badc:
+            rep.violation(rule, "dim %d: cell connectivity: %s" % (dim, "; ".join(badc)[:300]), F.nloc(conn[0][0]), F.qn, "", "a cell does not consist of the corners of one lattice cell in VTK order",
+                          key="%s|conn|%d" % (rule, dim), witness="any %dD cartesian grid with more than one cell per direction" % dim)
+        else:
+            n_ok += 1
+            rep.ok(rule, "dim %d: lattice positions and %d-vertex connectivity agree with the node numbering N = %s" % (dim, nvert, Nf), F.nloc(conn[0][0]), F.qn)
+    rep.floor(rule, n_ok, 2, "cartesian grid dimensions verified")
+
+
 def filter_call_sites(P, rep, rule="FILTER.calls"):
     rep.rule(rule, "filter_vtu_mesh appends to its output mesh and data sets: at every call the output containers are objects declared in the "
                    "same iteration (block) as the call and not used before it, so each filtered file starts empty")
